@@ -304,22 +304,29 @@ def main(argv=None):
     # the tree-summation lemma (local exactness => global exactness) is
     # machine-checked by Lean on every run
     lemma_fail = None
-    if "A-LEMMA-TREE" in (P.get("assumptions") or []):
-        lp = os.path.join(ROOT, "lemmas", "TreeExact.lean")
+    LEAN = {"A-LEMMA-TREE": ("TreeExact.lean",
+                             "recorded total = actual total for every "
+                             "locally exact finite tree"),
+            "A-LEMMA-COUNT": ("Count.lean",
+                              "the counting / enumeration facts (CNT, IDX) "
+                              "used for filter comprehensions")}
+    for aid, (fn, what) in LEAN.items():
+        if aid not in (P.get("assumptions") or []):
+            continue
+        lp = os.path.join(ROOT, "lemmas", fn)
         try:
             txt = open(lp).read()
             pr = subprocess.run(["lean", lp], capture_output=True, text=True,
                                 timeout=600)
             bad = pr.returncode != 0 or "error" in (pr.stdout + pr.stderr) \
-                or "sorry" in txt or "\naxiom " in txt
-            lr = {"check": "Lean 4 accepts lemmas/TreeExact.lean (no sorry, "
-                           "no axiom): recorded total = actual total for "
-                           "every locally exact finite tree",
+                or "sorry" in txt.replace("no sorry", "") or "\naxiom " in txt
+            lr = {"check": f"Lean 4 accepts lemmas/{fn} (no sorry, no "
+                           f"axiom): {what}",
                   "ok": not bad, "evaluations": 1, "bound": "unbounded "
-                  "(machine-checked proof by structural induction)",
+                  "(machine-checked proof by induction)",
                   "witness": None if not bad else (pr.stdout + pr.stderr)[-400:]}
         except Exception as e:  # noqa: BLE001
-            lr = {"check": "Lean lemma TreeExact", "ok": False,
+            lr = {"check": f"Lean lemma {fn}", "ok": False,
                   "evaluations": 1, "witness": repr(e)[:300]}
         cres = cres + [lr]
         if not lr["ok"]:
